@@ -886,7 +886,7 @@ Definition hop_ok (h : hop) : Prop :=
 
 Lemma hstep_inv y h : hop_ok h -> sysinv y -> sysinv (fst (hstep y h)).
 Proof.
-  intros Hok Hy. destruct h as [pid t a newid|k pid|pid id|k|k m a newid]; cbn [hstep hop_ok] in *.
+  intros Hok Hy. destruct h as [pid t a newid|k pid|k pid|pid id|k|k m a newid]; cbn [hstep hop_ok] in *.
   - pose proof (cstep_inv y (K_create t a newid) Hok Hy) as H1.
     destruct (cstep y (K_create t a newid)) as [y1 o1]. cbn [fst] in H1.
     destruct o1 as [[v| | | |]| | | |]; try exact H1. destruct v; try exact H1.
@@ -894,6 +894,8 @@ Proof.
     destruct (cstep y1 (K_proxy pid id true)) as [y2 o2]. cbn [fst] in H2.
     pose proof (cstep_inv y2 (K_release (last_pending y2)) Logic.I H2) as H3.
     destruct (cstep y2 (K_release (last_pending y2))) as [y3 o3]. exact H3.
+  - destruct (nth_error (y_proxies y) k) as [p|]; [|exact Hy].
+    exact (cstep_inv y (K_proxy pid (p_id p) false) Logic.I Hy).
   - destruct (nth_error (y_proxies y) k) as [p|]; [|exact Hy].
     exact (cstep_inv y (K_proxy pid (p_id p) false) Logic.I Hy).
   - exact (cstep_inv y (K_proxy pid id false) Logic.I Hy).
@@ -931,3 +933,34 @@ Theorem child_proxy_result_leaks_refuted :
   dget (objs (y_srv y)) 2 = Some (SlotE (OList [7]) TList) /\ refcount (y_srv y) 2 = 1 /\
   dmem (objs (y_srv y)) 1 = false.
 Proof. split; [repeat constructor; discriminate|vm_compute; repeat split; reflexivity]. Qed.
+
+(* a proxy inherited through a Process object takes its own reference in the child (the hook
+   registered by BaseProxy.__init__), so the referent survives the parent's release *)
+Theorem inherit_takes_reference y k p pid :
+  sysinv y -> nth_error (y_proxies y) k = Some p ->
+  let y' := fst (hstep y (H_inherit k pid)) in
+  snd (hstep y (H_inherit k pid)) = CO_ok /\
+  y_proxies y' = y_proxies y ++ [mk_proxy pid (p_id p) false] /\
+  refcount (y_srv y') (p_id p) = refcount (y_srv y) (p_id p) + 1 /\
+  holders y' (p_id p) = holders y (p_id p) + 1 /\
+  dget (objs (y_srv y')) (p_id p) = dget (objs (y_srv y)) (p_id p).
+Proof.
+  intros Hy En. pose proof Hy as [I H].
+  pose proof (hstep_inv y (H_inherit k pid) Logic.I Hy) as [I' H'].
+  cbn [hstep] in *. rewrite En in *. cbn [cstep] in *.
+  destruct (proxy_live y k p Hy En) as (Hid & o & t & Hg).
+  pose proof (incref_spec (y_srv y) (p_id p) I) as C.
+  destruct (incref (y_srv y) (p_id p)) as [u s'|e s']; cbn [fst snd y_srv y_proxies] in *.
+  - destruct C as (_ & Ho & U & _). repeat split.
+    + rewrite (U (p_id p)), Z.eqb_refl. reflexivity.
+    + rewrite <- (H' (p_id p)), <- (H (p_id p)), (U (p_id p)), Z.eqb_refl. reflexivity.
+    + rewrite Ho. reflexivity.
+  - exfalso. destruct C as (_ & _ & Hnone).
+    pose proof (inv_same _ I _ Hid) as Hs. unfold dmem in Hs. rewrite Hg, Hnone in Hs. discriminate.
+Qed.
+
+(* structural fact of BaseProxy.__init__ as found in the source on this run: the after-fork hook
+   is registered unconditionally (not under `if incref:`), after the guarded _incref() *)
+Lemma gen_after_fork_hook :
+  G_manager.after_fork_hook_unconditional = true /\ G_manager.incref_guarded_then_hook = true.
+Proof. split; reflexivity. Qed.
